@@ -38,6 +38,7 @@ for id in "$@"; do
     if grep -q "trust_ide" $demo && ! grep -q "trust_runtime" $demo; then crate=trust-ide; fi
     if grep -q "trust_hir" $demo && ! grep -q "trust_runtime\|trust_ide" $demo; then crate=trust-hir; fi
     if grep -q "trust_syntax" $demo && ! grep -q "trust_runtime\|trust_ide\|trust_hir" $demo; then crate=trust-syntax; fi
+    if grep -q "CARGO_BIN_EXE_trust-lsp" $demo; then crate=trust-lsp; fi
   fi
   run_demo() {
     if [ -n "$demo" ]; then
